@@ -57,7 +57,7 @@ func verifMust(err error) {
 // time, last access time (or none) and persist flag (absent / false / true).
 // The mock clock still stands at its epoch, so no store operation here
 // refreshes the last access time behind the harness' back.
-func verifPopulate(cs *cacheStore, n int) []verifFile {
+func verifPopulate(cs *cacheStore, n int, full bool) []verifFile {
 	files := make([]verifFile, n)
 	for i := 0; i < n; i++ {
 		f := &files[i]
@@ -66,12 +66,16 @@ func verifPopulate(cs *cacheStore, n int) []verifFile {
 		p, err := cs.newFileOp().GetFilePath(f.name)
 		verifMust(err)
 		f.path = p
-		f.persist = verif.Choice("persist", 3)
+		if full {
+			f.persist = verif.Choice("persist", 3)
+		} else {
+			f.persist = 2 * verif.Choice("persist", 2)
+		}
 		if f.persist > 0 {
 			_, err := cs.SetCacheFileMetadata(f.name, metadata.NewPersist(f.persist == 2))
 			verifMust(err)
 		}
-		f.hasLAT = verif.Choice("has-lat", 2) == 1
+		f.hasLAT = !full || verif.Choice("has-lat", 2) == 1
 		if f.hasLAT {
 			f.lat = verifInstant("lat")
 			_, err := cs.SetCacheFileMetadata(f.name, metadata.NewLastAccessTime(time.Unix(f.lat, 0)))
@@ -102,7 +106,7 @@ func VerifCleanupRemovesExactlyIdle() {
 	cs, err := newCacheStore(dir, base.NewLocalFileStore(clk), 0)
 	verifMust(err)
 	n := verif.Bound("files", 2, 3)
-	files := verifPopulate(cs, n)
+	files := verifPopulate(cs, n, true)
 
 	now := verifInstant("now")
 	clk.Set(time.Unix(now, 0))
